@@ -98,6 +98,23 @@ def gen_cases(ctx):
             const = {"ops": [], "coef": rand_coef(rng, "complex")}
             terms = [const] if mode in ("hconj", "ps_mul_c", "ps_mul_f", "f_mul_ps") else [const, {"ops": [], "coef": rand_coef(rng, "complex")}] if mode == "ps_add" else [rand_string(rng, n, "complex"), const]
             mk(mode, n, terms, c=rand_coef(rng, "complex"), f=ctx.randf(-3, 3), split=1)
+    # coefficients with exactly ONE part at a special value (1, -1, 0, -0) and the other generic - a fast path for "unit" or "real"
+    # coefficients must look at both parts - on non-empty strings, through apply, sums and expectation values
+    for a in (1.0, -1.0, 0.0, -0.0):
+        for part in (0, 1):
+            n = rng.randrange(1, 5)
+            co = [float2bits(rng.uniform(-2, 2)), float2bits(rng.uniform(-2, 2))]; co[part] = float2bits(a)
+            t = dict(rand_string(rng, n, allow_empty=False), coef=co)
+            mk("apply", n, [t]); mk("normalised", n, [dict(t)], style="normalised")
+            mk("sum_apply", n, [rand_string(rng, n, "complex"), dict(t)]); mk("expect", n, [dict(t), rand_string(rng, n, "complex")], style="normalised")
+    # a sum is a LIST of terms: the identical term (same factors, same coefficient) may occur twice or three times, whether it comes in
+    # through the constructor, `+`, `add_term` / `with_term`; it counts as often as it occurs
+    for mode in ("sum_apply", "expect", "with_term", "sum_add_ps", "sum_add"):
+        for n in (1, 2, 4):
+            base = [rand_string(rng, n, "complex", allow_empty=False) for _ in range(rng.randrange(1, 4))]
+            dup = rng.choice(base)
+            for terms in (base + [dict(dup)], [dict(dup)] + base + [dict(dup)], [dict(dup), dict(dup)]):
+                mk(mode, n, [dict(t) for t in terms], c=rand_coef(rng, "complex"), f=ctx.randf(-3, 3), split=len(terms) - 1)
     return cases
 
 def expected_alg(case):
